@@ -6,7 +6,7 @@ import os, re, json, glob, shutil, sys
 OUT = "/verif/seeded"
 os.makedirs(OUT, exist_ok=True)
 rows = []
-logs = [(l, "/tmp/mut", "") for l in sorted(glob.glob("/tmp/mut/results/*.log"))] + [(l, "/tmp/mut2", "r2") for l in sorted(glob.glob("/tmp/mut2/results/*.log"))] + [(l, "/tmp/mut3", "r3") for l in sorted(glob.glob("/tmp/mut3/results/*.log"))] + [(l, "/tmp/mut4", "r4") for l in sorted(glob.glob("/tmp/mut4/results/*.log"))] + [(l, "/tmp/mut5", "r5") for l in sorted(glob.glob("/tmp/mut5/results/*.log"))] + [(l, "/tmp/mut6", "r6") for l in sorted(glob.glob("/tmp/mut6/results/*.log"))] + [(l, "/tmp/mut7", "r7") for l in sorted(glob.glob("/tmp/mut7/results/*.log"))]
+logs = [(l, "/tmp/mut", "") for l in sorted(glob.glob("/tmp/mut/results/*.log"))] + [(l, "/tmp/mut2", "r2") for l in sorted(glob.glob("/tmp/mut2/results/*.log"))] + [(l, "/tmp/mut3", "r3") for l in sorted(glob.glob("/tmp/mut3/results/*.log"))] + [(l, "/tmp/mut4", "r4") for l in sorted(glob.glob("/tmp/mut4/results/*.log"))] + [(l, "/tmp/mut5", "r5") for l in sorted(glob.glob("/tmp/mut5/results/*.log"))] + [(l, "/tmp/mut6", "r6") for l in sorted(glob.glob("/tmp/mut6/results/*.log"))] + [(l, "/tmp/mut7", "r7") for l in sorted(glob.glob("/tmp/mut7/results/*.log"))] + [(l, "/tmp/mut8", "r8") for l in sorted(glob.glob("/tmp/mut8/results/*.log"))]
 for log, root, tag in logs:
     base = os.path.basename(log)[:-4]          # C01-a
     prop, v = base.split("-")
@@ -48,7 +48,7 @@ for log, root, tag in logs:
         meta = {
             "breaks_property": prop,
             "variant": tag + v,
-            "origin": "independent sub-agent given only the property text and a scratch worktree of /repo" + (" (second round: also told which functions the first round had already used, nothing else)" if tag == "r2" else " (third round: also given an area of the code to place the change in and a list of functions already used)" if tag == "r3" else " (fourth round: also given an area of the code and the list of everything the first three rounds had used)" if tag == "r4" else " (fifth round: asked for long or very specific histories, rarely used calls and parameters, one key type or one direction of a conversion, unusual boundaries; given the list of everything the first four rounds had used)" if tag == "r5" else " (sixth round: asked for mistakes that need several maps or particular handle kinds, Drop order, rarely used calls, buffer parameters, arithmetic on counts, stale cached fields, early returns; given the list of everything the first five rounds had used)" if tag == "r6" else " (seventh round: asked for truncating casts, seeks from the wrong base, swapped arguments, the wrong one of the three files, swallowed errors, loop bounds over chunks or buckets, copy-and-paste differences between the key types, wrong header constants; given the list of everything the first six rounds had used)" if tag == "r7" else ""),
+            "origin": "independent sub-agent given only the property text and a scratch worktree of /repo" + (" (second round: also told which functions the first round had already used, nothing else)" if tag == "r2" else " (third round: also given an area of the code to place the change in and a list of functions already used)" if tag == "r3" else " (fourth round: also given an area of the code and the list of everything the first three rounds had used)" if tag == "r4" else " (fifth round: asked for long or very specific histories, rarely used calls and parameters, one key type or one direction of a conversion, unusual boundaries; given the list of everything the first four rounds had used)" if tag == "r5" else " (sixth round: asked for mistakes that need several maps or particular handle kinds, Drop order, rarely used calls, buffer parameters, arithmetic on counts, stale cached fields, early returns; given the list of everything the first five rounds had used)" if tag == "r6" else " (seventh round: asked for truncating casts, seeks from the wrong base, swapped arguments, the wrong one of the three files, swallowed errors, loop bounds over chunks or buckets, copy-and-paste differences between the key types, wrong header constants; given the list of everything the first six rounds had used)" if tag == "r7" else " (eighth round: one change per property; asked for mistakes that depend on an interaction, a narrow range of sizes/offsets/counts/table sizes, or a buffer chunk written back in the middle of an operation)" if tag == "r8" else ""),
             "needs_to_manifest": summary,
             "confirmed": {"suite_with_patch": f"{m.group(1)} passed / {m.group(2)} failed", "demo_with_patch": m.group(3).strip(), "demo_without_patch": m.group(4).strip(),
                           "how": "tools/seed_verify.sh in a scratch worktree of /repo (removed afterwards)"},
@@ -195,11 +195,25 @@ The other four:
 | C11-r7a | an exactly fitting key whose value moves beyond 16 KiB | not caught by C11 (short sequences over several maps, no seeded images); reported by C01, C02, C04-C09, C14, C17 |
 | C16-r7b | a file-size limit in force during a `put` of 36 603..36 667 bytes (the error of the slot's trailing zero fill is dropped) | not caught by any check: C16 quantifies over refusals during flush and sync calls, and no enumeration here reaches that value length under a fault |
 
+Eighth round (one change per property, `-r8a`; asked for mistakes that depend on an interaction, on a narrow range of sizes,
+offsets, counts or table sizes, or on a buffer chunk that is written back in the middle of an operation). Made from the summaries
+before the run: the edge sweep in C01; a key of 140 000 bytes in C04; a re-open under another table parameter in C10's typed maps; an
+overwrite that fits the old slot among C16's update letters; tables whose highest occupied bucket is the last of its group of
+eight in C15 and C18; iterators kept open across other read-only calls among C15's read-only calls; and, for a change that
+truncates offsets beyond 32 GiB, histories on files extended with a hole to 256 MiB, 2 GiB and 32 GiB in C08. 15 of the 18 were
+caught by the owning check at the first run. The other three:
+
+| change | what it needs | outcome |
+|---|---|---|
+| C09-r8a | key slot classes 640/768 confused: a freed slot of the smaller class with a live record behind it | C09's sweep frees and re-fills a slot of the same class; the key ladder now also runs in part (c) of C09 |
+| C18-r8a | a complete traversal spliced into a history on a table whose highest occupied bucket is 7 mod 8 | revealed a weakness of the harness: the "complete traversal" spliced into engine A's repeated executions stopped at its first step (it was driven through the iterator oracle with an impossible expected count); it is now a plain complete traversal, and C18 catches the change |
+| C15-r8a | an iterator kept open while a statistics call moves the position of the table file | not caught by C15 (on the small tables explored the traversal goes wrong but no file changes); reported by C04 and C12 |
+
 C06-r6a (a second lookup of a vu64 map opens the files a second time) is not caught by C06, whose engine uses one handle per
 session; it is a handle-aliasing defect and is reported by C11.
 
-Besides C06-r6a, C11-r7a and C16-r7b one more change is not caught by the check of the property it was written for, and that check was left as it is: C11-r5a (a chain re-link defect that needs a key file beyond 16 KiB and a three-key chain; C11's engine
+Besides C06-r6a, C11-r7a, C15-r8a and C16-r7b one more change is not caught by the check of the property it was written for, and that check was left as it is: C11-r5a (a chain re-link defect that needs a key file beyond 16 KiB and a three-key chain; C11's engine
 explores short call sequences over several maps and handles, not seeded images) is reported by C04, C05, C07, C08 and
-C09 (and by C01 since the three-key seeds were added). All other 248 changes are caught by the owning check.
+C09 (and by C01 since the three-key seeds were added). All other 265 changes are caught by the owning check.
 """)
 print(f"{len(rows)} rows")
